@@ -167,12 +167,13 @@ Apply(op, x, k) == CASE op = "add" -> x + k
                      [] op = "sub" -> x - k
                      [] op = "mul" -> x * k
                      [] op = "div" -> TruncDiv(x, k)
+                     [] op = "div_s4" -> (4 * x) \div k    \* exact float division, result scaled by 4 (k | 4)
                      [] op = "neg" -> -x
 
 \* Direction of the map x |-> Apply(op, x, k):  1 monotone, -1 antitone, 0 constant.
 Direction(op, k) == CASE op \in {"add", "sub"} -> 1
                       [] op = "neg" -> -1
-                      [] op \in {"mul", "div"} -> IF k > 0 THEN 1 ELSE IF k < 0 THEN -1 ELSE 0
+                      [] op \in {"mul", "div", "div_s4"} -> IF k > 0 THEN 1 ELSE IF k < 0 THEN -1 ELSE 0
 
 \* Reference closed form of the image (k = 0 multiplier only on two-sided).
 ScalarRef(op, a, k) ==
